@@ -955,7 +955,10 @@ Definition run_aop (ci : bool) (st : list node * cont * list cont) (opi : node *
   let '(op, ist) := opi in
   match op with
   | List [Str kind; Str k; v] =>
-      let add := if negb ci && negb (ints_in53 v) && negb (nbool ist) then Err 9 else c_add ci a k v in
+      (* the same key with the same value once more: already "stored exactly" - reporting a duplicate or not is open *)
+      let same_there := match map_get k a with Some x => node_eqb x v | None => false end in
+      let add := if same_there then (if nbool ist then Ok a else Err 9)
+                 else if negb ci && negb (ints_in53 v) && negb (nbool ist) then Err 9 else c_add ci a k v in
       if str_eqb kind (lit "add") then
         match add with Ok a' => (sts ++ [Bool true], a', cls) | _ => (sts ++ [Bool false], a, cls) end
       else (* cloneadd: the clone takes the value or refuses it; the original is untouched, and the clone keeps what it got *)
